@@ -124,7 +124,7 @@ def target(
         ensure_pio()
 
     main_file = pathlib.Path(sys.modules["__main__"].__file__)
-    src = main_file.read_text(encoding="utf-8")
+    src = main_file.read_text(encoding="utf-8-sig")
     program = parse(src)
     required_libs = _collect_required_libraries(program)
     if "Servo" in required_libs:
